@@ -21,6 +21,7 @@ package main
 // session, in that direction, delivered exactly once; every conn.Write is exactly one whole frame.
 
 import (
+	"errors"
 	"bytes"
 	"fmt"
 	"net"
@@ -399,6 +400,17 @@ func c01Where(remote string) (s, d int, ok bool) {
 }
 
 // ---- recording plugin: issue events between the table store and the write ----------------------------
+
+// c01Refuser drops the trial session of a run at its first PreReadHeader.
+type c01Refuser struct{}
+
+func (c01Refuser) Name() string { return "c01refuser" }
+func (c01Refuser) PreReadHeader(ctx erpc.PreCtx) error {
+	if a := ctx.Session().RemoteAddr().String(); strings.Contains(a, "trial-a") {
+		return errors.New("trial session refused")
+	}
+	return nil
+}
 
 type c01Plugin struct{}
 
@@ -779,7 +791,7 @@ func c01NewRun(cfg c01Cfg, sessions int, record bool) (*c01Run, func()) {
 	r := &c01Run{cfg: cfg, id: c01RunNo, record: record, ctr: make([]uint64, 2*sessions), hist: map[string]int{}}
 	peers := [2]erpc.Peer{}
 	for side := 0; side < 2; side++ {
-		p := erpc.NewPeer(erpc.PeerConfig{}, c01Plugin{})
+		p := erpc.NewPeer(erpc.PeerConfig{}, c01Plugin{}, c01Refuser{})
 		r.routes[side] = map[string]string{}
 		for _, path := range p.RouteCall(new(c01Svc)) {
 			r.routes[side]["c:"+path[strings.LastIndex(path, "/")+1:]] = path
@@ -811,6 +823,31 @@ func c01NewRun(cfg c01Cfg, sessions int, record bool) (*c01Run, func()) {
 			continue
 		}
 		r.links = append(r.links, l)
+	}
+	// A "trial" session that the B side drops at its very first PreReadHeader (what a quota / ban
+	// plugin does): an exit path of the read loop that hands its context back. Whatever that path
+	// does with pooled objects must not reach the sessions of the run (seed C01-E: the context was
+	// put into the pool twice, two read loops then shared one context). It is not part of r.links.
+	if ta, tb := mem.Pair(fmt.Sprintf("c01r%dtrial", r.id)); true {
+		var wg sync.WaitGroup
+		wg.Add(1)
+		var sb erpc.Session
+		go func() { defer wg.Done(); sb, _ = peers[1].ServeConn(tb, pf) }()
+		sa, _ := peers[0].ServeConn(ta, pf)
+		wg.Wait()
+		if sa != nil && sb != nil {
+			waitUntil(2*time.Second, func() bool {
+				select {
+				case <-sb.CloseNotify():
+					return true
+				default:
+					return false
+				}
+			})
+			sa.Close()
+		}
+		ta.Close()
+		tb.Close()
 	}
 	return r, func() {
 		// Session.Close waits for every pending call; after a lost call it would wait for ever
